@@ -373,3 +373,16 @@ Proof.
   - left. reflexivity.
   - cbn. repeat split; reflexivity.
 Qed.
+
+(* ---- a forwarding path (command / HTTP / DNS forwarder) is a LOOKUP: it must not "clean up" what it believes to be a stale
+        record.  The forwarder that does (seeded change C08-14: on "located on this node, but no local connection" it
+        unregisters the located connection) is refuted: its local check precedes the lookup, the client's registration on this
+        node completes in between, the lookup then locates the fresh registration on this very node, and the cleanup
+        removes it although the owner connection never closed. ---- *)
+Lemma forwarder_cleanup_refuted : forall cas : bool,
+  let s1 := trun cas (tempty, [TFind 7; TReg 1 10 7 true]) [1; 1; 0; 0]%nat in
+  nth_error (snd s1) 0 = Some (TFindDone (TFound 1 10)) /\     (* the forwarder on node 1 locates client 7 on node 1 ... *)
+  tfind (fst s1) 7 = TFound 1 10 /\                             (* ... where it IS registered *)
+  let s2 := trun cas (fst s1, [TUnreg 10]) [0; 0; 0; 0]%nat in   (* the "cleanup" = UnregisterConnection(located connection) *)
+  all_done s2 = true /\ tfind (fst s2) 7 = TAbsent.
+Proof. intros [|]; vm_compute; repeat split; reflexivity. Qed.
